@@ -148,8 +148,8 @@ func c16GenParam(t *rapid.T, maxTags int) c16Param {
 	nsg := rapid.IntRange(1, 3).Draw(t, "nsg")
 	p.SGs = append([]string(nil), rapid.Permutation(c16SGPool).Draw(t, "sgs")[:nsg]...)
 	p.RG = rapid.SampledFrom(c16RGs).Draw(t, "rg")
-	p.Trunk = rapid.IntRange(0, 3).Draw(t, "trunk") == 0
-	p.ERDMA = rapid.IntRange(0, 3).Draw(t, "erdma") == 0
+	p.Trunk = rapid.IntRange(0, 3).Draw(t, "trunk") == 3
+	p.ERDMA = rapid.IntRange(0, 3).Draw(t, "erdma") == 3
 	p.IPCount = rapid.IntRange(0, 4).Draw(t, "ipcount")
 	p.IPv6 = rapid.IntRange(0, 3).Draw(t, "ipv6")
 	p.Tags = c16GenTags(t, maxTags)
